@@ -44,3 +44,30 @@ def run_contracts(rep, rule, mod, struct_specs, fnspecs, externals=None, opaque=
     a['loops_closed_by_invariant'] = a.get('loops_closed_by_invariant', 0) + it.loops_seen
     a['functions_interpreted'] = sorted(set(a.get('functions_interpreted', [])) | it.functions_seen)
     return it, run
+
+
+def cxx(mod, cls, method, nth=None, param_count=None):
+    """mangled name of the instantiated member cls::method (cls given as a
+    prefix of the debug-info scope, e.g. 'igris::ring<int'). AnalysisBroken
+    if the anchor vanished."""
+    c = [f for f in mod.defined() if f.scope.startswith(cls) and
+         (f.srcname == method or f.srcname.startswith(method + '<'))]
+    if param_count is not None:
+        c = [f for f in c if len(f.params) == param_count]
+    if not c:
+        raise AnalysisBroken('member %s::%s not instantiated in %s (anchor vanished or witness out of date)'
+                             % (cls, method, mod.path))
+    c.sort(key=lambda f: f.name)
+    if nth is not None:
+        return c[nth].name
+    if len(c) > 1:
+        # const / non-const twins etc: caller must disambiguate
+        raise AnalysisBroken('member %s::%s is ambiguous in %s: %s' % (cls, method, mod.path, [f.name for f in c]))
+    return c[0].name
+
+
+def fn_named(mod, srcname):
+    c = [f for f in mod.defined() if f.srcname == srcname]
+    if len(c) != 1:
+        raise AnalysisBroken('function %s: %d definitions in %s' % (srcname, len(c), mod.path))
+    return c[0].name
